@@ -522,3 +522,71 @@ def snapshot_boundary(n=20, seed=1):
         return probs, stats
     finally:
         cl.shutdown()
+
+
+def concurrent_same_node(clients=6, ops=40):
+    """`clients` connections to ONE node of a 3-node cluster, each incrementing its own counter and appending to its own list
+    `ops` times, all at the same moment. On a standalone server connection i sees INCR replies 1..ops and RPUSH replies 1..ops,
+    and afterwards every node holds ops / the ops elements in order. Whatever is shared between the proposals of one node
+    (buffers, identifiers) shows as a reply or a final value that is not the standalone one. Returns (problems, stats)."""
+    import threading
+    cl = cluster.Cluster(3, trace=False).start_all()
+    probs, stats = [], {"clients": clients, "ops": ops, "answered": 0}
+    try:
+        if cl.wait_serving(timeout=60) is None:
+            return None, dict(stats, inconclusive="cluster did not start serving")
+        node = cl.nodes[0]
+        lock = threading.Lock()
+        start = threading.Event()
+
+        def worker(i):
+            try:
+                c = node.client(timeout=25.0)
+            except Exception as e:
+                with lock:
+                    probs.append({"kind": "unanswered", "detail": "connection %d could not connect: %r" % (i, e)})
+                return
+            start.wait()
+            for j in range(1, ops + 1):
+                for argv, want in ((["INCR", "cs-ctr-%d" % i], (":", j)), (["RPUSH", "cs-lst-%d" % i, "e%d-%d" % (i, j)], (":", j))):
+                    try:
+                        r = c.cmd(*argv, timeout=25.0)
+                    except Exception as e:
+                        with lock:
+                            probs.append({"kind": "unanswered", "detail": "connection %d: %s got no reply within 25 s (%r)" % (i, " ".join(argv), e)})
+                        return
+                    with lock:
+                        stats["answered"] += 1
+                    if tuple(r[:2]) != want:
+                        with lock:
+                            probs.append({"kind": "not-the-standalone-reply", "detail": "connection %d: %s answered %r; a standalone server answers %r" % (i, " ".join(argv), tuple(r[:2]), want)})
+                        return
+            c.close()
+        ths = [threading.Thread(target=worker, args=(i,)) for i in range(clients)]
+        for t in ths:
+            t.start()
+        start.set()
+        for t in ths:
+            t.join(120)
+        for nd in cl.nodes[:3]:
+            if not nd.alive():
+                log = cl.tail(nd, 6000)
+                at = log.find("panic:")
+                probs.append({"kind": "node-died", "detail": "node %d died while %d connections proposed through node 1 at the same moment: %s" % (nd.id, clients, log[at:at + 300] if at >= 0 else log[-300:])})
+        if probs:
+            return probs, stats
+        time.sleep(0.5)
+        for nd in cl.nodes[:3]:
+            cc = nd.client(timeout=10.0)
+            for i in range(clients):
+                g = cc.cmd("GET", "cs-ctr-%d" % i, timeout=10.0)
+                l = cc.cmd("LRANGE", "cs-lst-%d" % i, "0", "-1", timeout=10.0)
+                wantl = [("$", ("e%d-%d" % (i, j)).encode()) for j in range(1, ops + 1)]
+                if g[1] != str(ops).encode() or [tuple(x[:2]) for x in (l[1] or [])] != wantl:
+                    probs.append({"kind": "not-the-standalone-state", "detail": "through node %d: counter %d reads %r (standalone: %d), its list has %d elements%s" % (
+                        nd.id, i, g[1], ops, len(l[1] or []), "" if [tuple(x[:2]) for x in (l[1] or [])] == wantl else " not in the order they were pushed / not the ones pushed")})
+                    break
+            cc.close()
+        return probs, stats
+    finally:
+        cl.shutdown()
